@@ -116,9 +116,12 @@ func (d *rawDecoder) Scan(ctx context.Context) (DecodedAmmo, error) {
 		}
 
 		a := d.pool.Get().(*ammo.RawAmmo)
+		if reqSize < 0 {
+			return nil, xerrors.Errorf("header decoding error for ammoNum %d: negative payload size in `%s`", d.ammoNum, data)
+		}
 		if reqSize != 0 {
-			buff := make([]byte, reqSize)
-			if n, err := io.ReadFull(d.reader, buff); err != nil {
+			buff, n, err := readSized(d.reader, reqSize)
+			if err != nil {
 				return nil, xerrors.Errorf("failed to read ammo with err: %w, at position: %v; tried to read: %v; have read: %v", err, position, reqSize, n)
 			}
 
